@@ -84,7 +84,7 @@ def registry():
                      'receiver classes by class-hierarchy analysis on method names (no type checker available)',
                      'Function.pullback dispatch expression as extracted by tracer_proto.dispatch_shape'])
     reg['C06'] = dict(
-        rules=[T.rule_pb_ro, T.rule_sweep_init, T.rule_sweep_balance, T.rule_setitem_copy, T.rule_x_writers, T.rule_drv_fresh, T.rule_seed_copy, T.rule_global, T.rule_doc, T.rule_pb_propagate, T.rule_graph_capture] + ([A.rule_class_state, A.rule_memo_key, A.rule_rec_unwrap] if A is not None else []) + ([G.rule_out_defined] if G is not None else []),
+        rules=[T.rule_pb_ro, T.rule_sweep_init, T.rule_sweep_balance, T.rule_setitem_copy, T.rule_x_writers, T.rule_drv_fresh, T.rule_seed_copy, T.rule_global, T.rule_doc, T.rule_pb_propagate, T.rule_graph_capture] + ([A.rule_class_state, A.rule_memo_key, A.rule_rec_unwrap, A.rule_uninit] if A is not None else []) + ([G.rule_out_defined] if G is not None else []),
         explanation='Static decision of the state discipline that makes results a function of the call\'s arguments only. '
                     'Decides: pullbacks never write forward values or incoming adjoints (R-pb-ro, E1 effects); adjoints are '
                     're-initialised unconditionally for every node before every sweep and xbar_from_x ignores the previous xbar '
@@ -95,7 +95,7 @@ def registry():
                     'equality of results across concrete histories.',
         assumptions=['library summary tables of verif/effects.py', 'the structural shape of CGraph.pullback (three top-level loops)'])
     if A is not None:
-        reg['C04'] = dict(rules=[A.rule_drv_order, T.rule_drv_fresh, T.rule_setitem_copy, A.rule_drv_flow, A.rule_drv_layout, T.rule_sweep_init, T.rule_pb_propagate, RP.rule_tracer, A.rule_drv_dtype],
+        reg['C04'] = dict(rules=[A.rule_drv_order, T.rule_drv_fresh, T.rule_setitem_copy, A.rule_drv_flow, A.rule_drv_layout, T.rule_sweep_init, T.rule_pb_propagate, RP.rule_tracer, A.rule_drv_dtype, A.rule_uninit],
                           explanation='Static decision of the driver protocol. Decides: on every path of each of the 8 drivers '
                                       'forward evaluation precedes the reverse sweep which precedes the read of xbar/x '
                                       '(R-drv-order); the point x and every supplied vector flow into the forward seed / '
